@@ -299,8 +299,18 @@ bool kirsch_bounded_kfifo_queue<T, Policies...>::committed(const marked_idx& tai
     return true;
   }
 
+  // head and tail have to be a consistent snapshot: with an outdated tail and a current head (or vice
+  // versa) the region checks below misjudge an item that head has already passed as committed.
   marked_idx tail_current = _tail.load(std::memory_order_relaxed);
   marked_idx head_current = _head.load(std::memory_order_relaxed);
+  for (;;) {
+    const marked_idx tail_reloaded = _tail.load(std::memory_order_relaxed);
+    if (tail_reloaded == tail_current) {
+      break;
+    }
+    tail_current = tail_reloaded;
+    head_current = _head.load(std::memory_order_relaxed);
+  }
   if (in_valid_region(tail_old.get(), tail_current.get(), head_current.get())) {
     return true;
   }
